@@ -157,10 +157,15 @@ func (sc *spliceCtx) splice(call *ast.CallExpr) ([]byte, error) {
 	if sig.Variadic() {
 		return nil, fmt.Errorf("variadic")
 	}
+	// named results become locals of the spliced block; a bare return hands them over
+	var namedResults []string
 	if fd.Type.Results != nil {
 		for _, f := range fd.Type.Results.List {
-			if len(f.Names) > 0 {
-				return nil, fmt.Errorf("named results")
+			for _, n := range f.Names {
+				if n.Name == "_" {
+					return nil, fmt.Errorf("blank named result")
+				}
+				namedResults = append(namedResults, n.Name)
 			}
 		}
 	}
@@ -370,7 +375,9 @@ func (sc *spliceCtx) splice(call *ast.CallExpr) ([]byte, error) {
 				return false
 			case *ast.ReturnStmt:
 				var repl string
-				if len(r.Results) == 0 {
+				if len(r.Results) == 0 && len(namedResults) == nres && nres > 0 {
+					repl = "{ " + strings.Join(rnames, ", ") + " = " + strings.Join(namedResults, ", ") + "; break " + label + " }"
+				} else if len(r.Results) == 0 {
 					repl = "break " + label
 				} else {
 					var rs []string
@@ -395,6 +402,15 @@ func (sc *spliceCtx) splice(call *ast.CallExpr) ([]byte, error) {
 	b.WriteString(label + ":\nfor {\n")
 	for _, ta := range typeAliases {
 		b.WriteString(ta + "\n")
+	}
+	if len(namedResults) == nres {
+		for i, n := range namedResults {
+			ts, err := sc.typeString(sig.Results().At(i).Type())
+			if err != nil {
+				return nil, err
+			}
+			b.WriteString("var " + n + " " + ts + "\n_ = " + n + "\n")
+		}
 	}
 	if len(pnames) > 0 {
 		allBlank := true
